@@ -1,4 +1,5 @@
 import RlboxModel.Calls
+import RlboxModel.Tls
 import RlboxModel.Lifecycle
 import Driver.Util
 /-! Engine `calls` (C12, C19): mirrors `harness/h_calls.cpp`. -/
@@ -107,7 +108,8 @@ def step (t : List String) : Option String :=
         let eps : List Nat := log.filterMap fun l => (l.drop 1).toString.toNat?
         let invs := mapInvs eps invs0
         let slots : SlotMap := fun sb k => (w.sbx sb).slots k
-        let r := runInvs slots invs
+        -- the per-thread-record machine of the bundled backends (`Tls.lean`); `C12_tls_refines` proves it equal to `runInvs`
+        let r := (lrunInvs slots Tls.init invs).1
         let evs := log ++ r.evs.map showEv ++ (if r.exc then ["x"] else [])
         some (String.intercalate ";" evs ++ (if hooksOnly then " T0=none T1=none" else s!" T0={timings r.evs 0} T1={timings r.evs 1}"))
   | [] => none
